@@ -198,11 +198,15 @@ Definition obj_val (kvs : list (list Z * val)) : option val := Some (VObj (sort_
    collapse.  The iteration order of go-cty sets of structured values is an
    internal hash order: the model keeps first-occurrence order and the
    correspondence compares sets as multisets. *)
-Fixpoint dedupe_known (vs : list val) : list val :=
+Fixpoint dedupe_from (seen : list val) (vs : list val) : list val :=
   match vs with
   | [] => []
-  | v :: r => v :: dedupe_known (filter (fun x => negb (wholly_known v && val_eqb v x)) r)
+  | v :: r =>
+      if existsb (fun x => wholly_known x && wholly_known v && val_eqb x v) seen
+      then dedupe_from seen r
+      else v :: dedupe_from (v :: seen) r
   end.
+Definition dedupe_known (vs : list val) : list val := dedupe_from [] vs.
 Definition set_val (vs : list val) : option val :=
   let tys := map type_of vs in
   if elem_types_consistent tys
@@ -213,7 +217,9 @@ Definition set_val (vs : list val) : option val :=
 (* BlockListSpec/BlockSetSpec: convert.UnifyUnsafe over the element types, then
    the conversions it returned.  UnifyUnsafe of identical types is that type with
    nil conversions (convert/unify.go: every path ends in `Equals` checks), which
-   is taken as a shortcut here; otherwise Cty/Convert.v [unify_n]. *)
+   is taken as a shortcut here; otherwise Cty/Convert.v [unify_n], which does not
+   cover types with a dynamic part nested inside ([HUnsup]; on the real code that
+   is where cty.ListVal/SetVal panic: report, finding "blocklist-nested-dynamic"). *)
 Inductive homog :=
 | HOk (vs : list val) (unified : bool)
 | HNoUnify            (* UnifyUnsafe returned NilType *)
@@ -233,12 +239,23 @@ Fixpoint conv_all (vs : list val) (t : ty) : option (list val) + bool (* inr tru
       end
   end.
 
+(* unifyAllAsDynamic: all types of one structural kind, some of them the dynamic
+   pseudo-type: the result type is dynamic and EVERY returned conversion yields
+   cty.DynamicVal (marks and values are lost) *)
+Definition single_kind_with_dyn (tys : list ty) : bool :=
+  let n := length tys in
+  let d := count is_dyn tys in
+  (0 <? d)%nat &&
+  existsb (fun k => (0 <? count k tys)%nat && (count k tys + d =? n)%nat)
+          [is_map; is_list; is_set; is_obj; is_tuple].
+
 Definition homogenise (vs : list val) : homog :=
   let tys := map type_of vs in
   match tys with
   | [] => HOk vs false
   | t0 :: _ =>
       if forallb (ty_eqb t0) tys then HOk vs false
+      else if single_kind_with_dyn tys then HOk (map (fun _ => dyn_val) vs) true
       else if existsb nested_dyn tys then HUnsup
       else
         match unify_n (S (S (fold_right (fun t a => ty_size t + a)%nat O tys))) tys with
